@@ -195,10 +195,11 @@ func (c ColMap[K, V]) Prepare() error {
 
 // Infer ensures Inferable column propagation.
 func (c *ColMap[K, V]) Infer(t ColumnType) error {
-	keytype, valtype, hascomma := strings.Cut(string(t.Elem()), ",")
-	if !hascomma || strings.ContainsRune(valtype, ',') {
+	args := splitTypeArgs(string(t.Elem()))
+	if len(args) != 2 {
 		return errors.New("invalid map type")
 	}
+	keytype, valtype := args[0], args[1]
 	if v, ok := c.Keys.(Inferable); ok {
 		ct := ColumnType(strings.TrimSpace(keytype))
 		if err := v.Infer(ct); err != nil {
@@ -212,4 +213,36 @@ func (c *ColMap[K, V]) Infer(t ColumnType) error {
 		}
 	}
 	return nil
+}
+
+// splitTypeArgs splits the arguments of a composite type at the commas that
+// are neither nested in parentheses nor quoted, so that
+// "String, Enum8('a' = 1, 'b' = 2)" is the two arguments of a Map.
+func splitTypeArgs(s string) []string {
+	var (
+		args  []string
+		depth int
+		quote bool
+		start int
+	)
+	for i := 0; i < len(s); i++ {
+		switch c := s[i]; {
+		case quote:
+			if c == '\\' {
+				i++ // escaped character
+			} else if c == '\'' {
+				quote = false
+			}
+		case c == '\'':
+			quote = true
+		case c == '(':
+			depth++
+		case c == ')':
+			depth--
+		case c == ',' && depth == 0:
+			args = append(args, s[start:i])
+			start = i + 1
+		}
+	}
+	return append(args, s[start:])
 }
